@@ -202,7 +202,7 @@ def check_copy(ctx, R):
     for kind, data, caps, pos, r in cases:
         got, has_ri, mcaps = run_copy_case(kind, data, caps, pos, r)
         impls.append((got, has_ri, mcaps))
-        margs.append((data, pos, list(mcaps), has_ri, list(r) if r else [], len(data) + 2))
+        margs.append((data, pos, list(mcaps), has_ri, list(r) if r else [], len(mcaps) + len(data) // BUF + 4))
     models = R.batch('copy', margs, chunk=8)
     for (kind, data, caps, pos, r), (got, has_ri, mcaps), mv in zip(cases, impls, models):
         m = R.unres(mv)
